@@ -107,6 +107,26 @@ def run(tier, replay_file=None):
             he = _r.Random(common.seed() + 4 + int(compress)).sample(he, min(len(he), 100))
         if not replay_set(R, he, compress, known_total):
             break
+    # a store that holds an instance WITHOUT a session next to one with an open session (both written by /save-state), then a
+    # whole-server restore (restart or /load-state), then the open session is read or stepped - both role assignments, so that
+    # whichever order the store lists the two files in, the session-less one comes first in one of them: every history
+    SHAPE4 = ('MC_Mixed == LET n == Len(hist\') h == hist\'[n] IN\n'
+              '   /\\ (n \\in {1, 2} => h.op = "Start") /\\ (n = 3 => h.op = "Begin" /\\ h.status = 200) /\\ (n = 4 => h.op = "Step" /\\ h.i = hist\'[3].i)\n'
+              '   /\\ (n = 5 => h.op = "SaveState") /\\ (n = 6 => h.op \\in {"Crash", "LoadState"})\n'
+              '   /\\ (n \\in {7, 8} => h.op \\in {"Results", "Step"} /\\ h.i = hist\'[3].i)\n')
+    for compress in (False, True):
+        c = consts('{"i1","i2"}', 4, DEV, compress, ops='{"Start","Begin","Step","Results","SaveState","LoadState","Crash"}', timeouts='{3}', ticks='{}', kv='{0,2}', sv='{0,3}')
+        c["Scen"] = '{"base"}'
+        hx, _ = gen.histories("Server", c, 8, defs=SHAPE4, extra_cfg={"action_constraints": ["MC_Mixed"]})
+        hx = [h for h in hx if len({x["i"] for x in h[:2]}) == 2]
+        R.cov["mixed_store_then_restore_histories_%s" % ("compressed" if compress else "plain")] = len(hx)
+        if quick:
+            a = [h for h in hx if h[2]["i"] == "i1"]; b = [h for h in hx if h[2]["i"] == "i2"]
+            hx = _r.Random(common.seed() + 6).sample(a, min(len(a), 50)) + _r.Random(common.seed() + 7).sample(b, min(len(b), 50))
+        if not hx:
+            raise common.Machinery("mixed-store family is empty (vacuous)")
+        if not replay_set(R, hx, compress, known_total):
+            break
     R.cov["known_matches"] = known_total
     R.sample([{a: b for a, b in h.items() if a not in ("rows", "want", "row")} for h in hs[0]])
     f = R.findings.open_for("C19") + [e for e in R.findings.entries if e.get("status") == "open" and "C19" in e.get("also", [])]
